@@ -233,6 +233,7 @@ func runC17(c *Ctx) {
 			c.Check(la.Accesses >= 3, "C17.locked", "target", "guarded accesses analysed", "", fmt.Sprintf("%d accesses of Config.configuration, %d directly under Config.mu, rest discharged at call sites", la.Accesses, la.Guarded))
 		}
 	}
+	scanComplete(c, "C17.scan-complete", hd)
 	c.Rule("C17.nil-handlers", "no handler field is invoked on a path where it is nil")
 
 	c17Extra(c, hd, val)
